@@ -7,8 +7,8 @@ EndpointParameterProcessor.process_parameters) with the renderer's input capture
 Oracle (independent of the model): str.isidentifier() and not keyword.iskeyword(), distinctness inside one
 namespace, count / wire keys preserved.
 
-VERIF_C20_SRC=<dir> runs the implementation from <dir> instead of /repo/src (mutation testing only; the
-directory must contain the package `pyopenapi_gen`).
+The implementation is whatever `pyopenapi_gen` ./check put on PYTHONPATH (framework.REPO; VERIF_REPO_ROOT points
+the whole run at a scratch checkout for experiments with seeded changes).
 """
 from __future__ import annotations
 
@@ -23,10 +23,6 @@ import sys
 import tempfile
 from collections import Counter
 from typing import Any
-
-_ALT = os.environ.get("VERIF_C20_SRC")
-if _ALT:
-    sys.path.insert(0, _ALT)
 
 from framework import BUILD, Check, cbool, clist, copt, cpair, cstr, load_corpus  # noqa: E402
 
